@@ -1117,3 +1117,146 @@ def stdlib_round_trip_probe(R, aspects=("round_trip", "json", "no_copy")):
                 if "no_copy" in aspects and outs.get("no_copy") != outs.get("copy"):
                     R.violation(f"serialize({label}, {wv!r}) depends on no_copy: {outs.get('no_copy')!r} vs {outs.get('copy')!r}",
                                 dict(type=label, value=repr(wv)))
+
+
+def aggregate_probe(R, aspects=("dispatch", "schema"), n_classes=40, data_per_class=10):
+    """classes with flattened, pattern-properties and additional-properties fields: where each key of the datum goes
+    (inner object, pattern dict, additional dict, unexpected property) against the model Small/Aggregate.v (`dispatch`, proved
+    equal to the documented partition), and acceptance against deserialization_schema (jsonschema, standard semantics)"""
+    import re
+    from harness import core
+    from harness.core import coq_str, coq_list, coq_bool
+    pyrun.ensure_repo_on_path()
+    import apischema.cache
+    import jsonschema
+    from apischema import deserialize, ValidationError
+    from apischema.json_schema import deserialization_schema
+    rng = R.rng
+    items, meta = [], []
+    PATS = ["x_", "x_a", "y"]
+    for ci in range(n_classes):
+        nn = rng.randint(1, 2)
+        nflat = rng.choice([0, 1, 1, 2])
+        npat = rng.choice([0, 0, 1, 2])
+        has_add = rng.random() < 0.4
+        if nflat + npat + has_add == 0:
+            nflat = 1
+        pre = rng.choice(["", "", "q_"])
+        inner_pool = ["f0", "f1", "f2", "x_f", "y"]
+        rng.shuffle(inner_pool)
+        inner = [sorted(set(rng.sample(inner_pool, rng.randint(1, 2)))) for _ in range(nflat)]
+        if nflat == 2 and set(inner[0]) & set(inner[1]):
+            inner[1] = [x for x in inner[1] if x not in inner[0]] or ["f9"]
+        pats = rng.sample(PATS, npat)
+        L = ["import re", "from dataclasses import dataclass, field", "from typing import Dict",
+             "from apischema.metadata import flatten, properties", ""]
+        for i, names in enumerate(inner):
+            L += ["@dataclass", f"class G{i}:"] + [f"    {n}: int = -1" for n in names] + [""]
+        L += ["@dataclass", "class C:"] + [f"    n{k}: int = 0" for k in range(nn)]
+        for i in range(nflat):
+            L.append(f"    g{i}: G{i} = field(default_factory=G{i}, metadata=flatten)")
+        for j, p in enumerate(pats):
+            L.append(f"    p{j}: Dict[str, int] = field(default_factory=dict, metadata=properties(pattern=re.compile({('^' + p)!r})))")
+        if has_add:
+            L.append("    rest: Dict[str, int] = field(default_factory=dict, metadata=properties)")
+        src = "\n".join(L) + "\n"
+        al = (lambda s, pre=pre: pre + s)
+        apischema.cache.reset()
+        try:
+            mod = pyrun.exec_module(src)
+        except Exception as e:   # noqa
+            R.count("aggregate_class_rejected:" + type(e).__name__)
+            continue
+        try:
+            known = [al(f"n{k}") for k in range(nn)]
+            flats = [[al(n) for n in names] for names in inner]
+            own = [f"g{i}" for i in range(nflat)] + [f"p{j}" for j in range(npat)] + (["rest"] if has_add else [])
+            universe = known + [a for fl in flats for a in fl] + own + [al(o) for o in own] \
+                + ["x_", "x_a", "x_ab", "x_b", "x_f", "y", "yy", "zz", "n0", "f0"]
+            universe = sorted(set(universe))
+            for _ in range(data_per_class):
+                keys = rng.sample(universe, rng.randint(0, min(6, len(universe))))
+                data = {k: 1 + i for i, k in enumerate(keys)}
+                ap = rng.random() < 0.3
+                info = dict(source=src, aliaser_prefix=pre, data=data, additional_properties=ap)
+                R.count("aggregate_probe")
+                try:
+                    v = deserialize(mod.C, dict(data), aliaser=al, additional_properties=ap)
+                    ok, errs = True, None
+                except ValidationError as e:
+                    ok, errs = False, e.errors
+                except Exception as e:   # noqa
+                    R.violation(f"deserialize of a class with aggregate fields raised {type(e).__name__}: {e}", info)
+                    continue
+                if ok:
+                    ots = [[al(n) for n in names if getattr(getattr(v, f"g{i}"), n) != -1] for i, names in enumerate(inner)]
+                    oms = [sorted(getattr(v, f"p{j}")) for j in range(npat)]
+                    orest = sorted(v.rest) if has_add else []
+                    mode = 0 if has_add else (1 if ap else 2)
+                    for i, names in enumerate(inner):
+                        g = getattr(v, f"g{i}")
+                        for n in names:
+                            if getattr(g, n) != -1 and getattr(g, n) != data.get(al(n)):
+                                R.violation(f"flattened field g{i}.{n} holds {getattr(g, n)!r}, the datum has {data.get(al(n))!r}", info)
+                else:
+                    bad = [e for e in errs if e["err"] != "unexpected property" or len(e["loc"]) != 1]
+                    if bad:
+                        R.violation(f"unexpected errors {bad} for a datum whose values are all valid", info)
+                        continue
+                    ots, oms, orest, mode = [[] for _ in inner], [[] for _ in pats], sorted(e["loc"][0] for e in errs), 3
+                    if has_add or ap:
+                        R.violation("unexpected properties are reported although the class keeps / tolerates additional properties: "
+                                    f"{orest}", info)
+                        continue
+                if "round_trip" in aspects and ok:
+                    from apischema import serialize
+                    try:
+                        out = serialize(mod.C, v, aliaser=al)
+                        back = deserialize(mod.C, out, aliaser=al, additional_properties=ap)
+                        if back != v:
+                            R.violation(f"a value with aggregate fields does not round-trip: {v!r} -> {out!r} -> {back!r}", info)
+                    except Exception as e:   # noqa
+                        R.violation(f"serialize / deserialize of a value with aggregate fields raised {type(e).__name__}: {e}", info)
+                if "dispatch" in aspects:
+                    agg = (f"(mkAgg {coq_list(map(coq_str, known))} {coq_list(coq_list(map(coq_str, fl)) for fl in flats)} "
+                           f"{coq_list(map(coq_str, pats))} {coq_bool(has_add)})")
+                    items.append(f"({agg}, {coq_list(map(coq_str, keys))}, {coq_list(coq_list(map(coq_str, x)) for x in ots)}, "
+                                 f"{coq_list(coq_list(map(coq_str, x)) for x in oms)}, {coq_list(map(coq_str, orest))}, {mode}%nat)")
+                    meta.append(dict(info, outcome=("accepted: " + repr(v)) if ok else errs))
+                if "schema" in aspects:
+                    try:
+                        doc = deserialization_schema(mod.C, aliaser=al, additional_properties=ap)
+                        valid = jsonschema.Draft202012Validator(doc).is_valid(data)
+                    except Exception as e:   # noqa
+                        R.violation(f"deserialization_schema of a class with aggregate fields: {type(e).__name__}: {e}", info)
+                        continue
+                    if valid != ok:
+                        # KF-C06-flattened-closed-branches: each member of the allOf carries additionalProperties: false and
+                        # rejects the properties of the others; read with the members left open (the top-level
+                        # unevaluatedProperties: false closes the whole), the schema must agree
+                        if ok and not valid and nflat and not ap:
+                            opened = copy.deepcopy(doc)
+                            for k_, member in enumerate(opened.get("allOf", [])):
+                                if isinstance(member, dict) and "$ref" in member:
+                                    member = copy.deepcopy(_resolve(opened, member["$ref"]))
+                                    opened["allOf"][k_] = member
+                                if isinstance(member, dict) and member.get("additionalProperties") is False:
+                                    del member["additionalProperties"]
+                            if jsonschema.Draft202012Validator(opened).is_valid(data) == ok \
+                                    and R.known_match("flattened-closed-branches"):
+                                continue
+                        R.violation(f"deserialize {'accepts' if ok else 'rejects'} {data!r} but its schema says {valid} "
+                                    "(class with flattened / pattern / additional properties fields)", dict(info, schema=doc))
+        finally:
+            pyrun.drop_module(mod)
+    apischema.cache.reset()
+    if "dispatch" in aspects and items:
+        T = "agg * list string * list (list string) * list (list string) * list string * nat"
+        bad, errs = core.run_coq_shards("aggregate", "From Coq Require Import List String Bool.\nFrom AV Require Import Small.Aggregate.\n"
+                                        "Import ListNotations.\nOpen Scope string_scope.\n", items, "agg_case_ok", item_type=T, shard=300)
+        for k, e in errs:
+            R.broken.append(f"coq evaluation failed (aggregate shard {k}): {e[-300:]}")
+        for i in bad[:4]:
+            R.violation("the keys of the datum are not dispatched as documented (model Small/Aggregate.v: regular properties, flattened "
+                        "aliases, first matching pattern, the rest additional / unexpected)", meta[i])
+        R.hist["aggregate_cases"] = len(items)
